@@ -59,13 +59,14 @@ impl Parse for v1::DecisionVariable {
     type Context = ();
     fn parse(self, _: &Self::Context) -> Result<Self::Output, ParseError> {
         let message = "ommx.v1.DecisionVariable";
+        let kind = self.kind().parse_as(&(), message, "kind")?;
+        // An absent bound means unbounded ([0, 1] for binary variables), not [0, 0]
+        let bound =
+            Bound::try_from(&self).map_err(|e| ParseError::from(e).context(message, "bound"))?;
         Ok(DecisionVariable {
             id: VariableID(self.id),
-            kind: self.kind().parse_as(&(), message, "kind")?,
-            bound: self
-                .bound
-                .unwrap_or_default()
-                .parse_as(&(), message, "bound")?,
+            kind,
+            bound,
             substituted_value: self.substituted_value,
             name: self.name,
             subscripts: self.subscripts,
